@@ -28,7 +28,7 @@ from vf.props.common import harness_error, inconclusive, proved, violation
 ID = "C18"
 LEVEL = "model_checking"
 ITEM_BUDGET_S = {"quick": 300, "thorough": 900}
-QT = {"quick": 10000, "thorough": 60000}
+QT = {"quick": 10000, "thorough": 30000}
 _TIER = "quick"
 METHODS = ["auto", "linprog", "highs", "highs-ds", "highs-ipm", "SLSQP", "trust-constr", "L-BFGS-B"]
 ROUTES = ["scalar", "vector", "vector-slice", "vector-reversed", "matrix", "matrix-T", "matrix-row", "matrix-col", "matrix-diag", "matrix-diag-func", "matrix-slice", "diag_matrix", "symmetric", "mixed"]
@@ -346,4 +346,34 @@ def replay(payload):
     inside = uw[0][uw[0].index("[") + 1: uw[0].index("] have")]
     if sorted(_split_names(inside)) != exp:
         return True, f"warning names {sorted(_split_names(inside))}, expected {exp}"
+    # relaxation == the same model declared continuous: compare what reaches the solver
+    relaxed_calls = list(calls)
+    obj2, cons2, _ = build(route, domain, linear, val)
+    p2 = Problem().minimize(obj2)
+    for c in cons2:
+        p2.subject_to(c)
+    for v_ in p2.variables:
+        v_.domain = "continuous"
+    del calls[:]
+    ss.minimize, scipy.optimize.linprog = fm, fl
+    try:
+        with warnings.catch_warnings():
+            warnings.simplefilter("ignore")
+            for m_, s_ in payload.get("pre", []):
+                try:
+                    p2.solve(method=m_, strict=False)
+                except Exception:  # noqa: BLE001
+                    pass
+            del calls[:]
+            try:
+                p2.solve(method=method, strict=False)
+            except Exception:  # noqa: BLE001
+                pass
+    finally:
+        ss.minimize, scipy.optimize.linprog = om, ol
+
+    def norm(cs):
+        return [(k, None if b is None else [tuple(None if t is None else float(t) for t in bb) for bb in b]) for k, b in cs]
+    if norm(relaxed_calls) != norm(calls):
+        return True, f"relaxed solve passes bounds {norm(relaxed_calls)} to the solver, the same model declared continuous passes {norm(calls)}"
     return False, "no difference reproduced"
